@@ -75,6 +75,8 @@ class Sequence:
         if not sequences_or_jobs:
             return
         new_jobs = self._flatten(sequences_or_jobs)
+        if not new_jobs:
+            return
         if self.jobs:
             new_jobs[0].requires(self.jobs[-1])
         self.jobs += new_jobs
